@@ -24,6 +24,9 @@ pub struct GenOpts {
     /// Probability (percent) of a connect-type statement.
     pub connect_pct: u32,
     pub recompose_npo: bool,
+    /// Draw the recompose table flavour / lane count (`Prog::recompose_variant`) at random; only
+    /// for callers that configure prover and key generation from `fields::RecomposeCfg`.
+    pub recompose_variants: bool,
     /// "Clean" programs avoid the constructs that are known (see known_findings.jsonl, C09/C10)
     /// to give unprovable circuits: connect classes with two leaf creators (public / const /
     /// private / hint output), Horner steps outside a proper chain, and a private input used as
@@ -41,6 +44,7 @@ impl Default for GenOpts {
             div: true,
             connect_pct: 18,
             recompose_npo: false,
+            recompose_variants: false,
             clean: false,
         }
     }
@@ -713,7 +717,12 @@ impl<'a, S: Setup> G<'a, S> {
             // mode 1 (`recompose/coeff` table) needs the split-table prover configuration that
             // only the D1-permutation-in-D5 recursion backend uses; the harness registers the
             // standard recompose table, so only the default and the forced-ALU modes are generated.
-            let mode = [0u8, 2u8][self.rng.random_range(0..2usize)];
+            // (programs of the split flavour also use mode 1)
+            let mode = if self.prog.recompose_cfg().1 {
+                [0u8, 1u8, 2u8][self.rng.random_range(0..3usize)]
+            } else {
+                [0u8, 2u8][self.rng.random_range(0..2usize)]
+            };
             let r = self.push(Stmt::RecomposeExt(cs, mode), vec![v]);
             if chance(self.rng, 1, 2) {
                 let cs2: Vec<S::E> = S::coeffs(&self.vals[r]).iter().map(|c| S::el(&[*c])).collect();
@@ -755,6 +764,7 @@ pub fn gen_prog<S: Setup>(rng: &mut SmallRng, opts: &GenOpts) -> Generated<S> {
         prog: Prog {
             stmts: vec![],
             recompose_npo: opts.recompose_npo,
+            recompose_variant: 0,
         },
         vals: vec![],
         kinds: vec![],
@@ -765,6 +775,9 @@ pub fn gen_prog<S: Setup>(rng: &mut SmallRng, opts: &GenOpts) -> Generated<S> {
         cls: vec![],
         leafs: vec![],
     };
+    if opts.recompose_npo && opts.recompose_variants && S::D > 1 {
+        g.prog.recompose_variant = g.rng.random_range(0..5u32) as u8;
+    }
     let n_leaves = g.rng.random_range(1..5usize);
     for _ in 0..n_leaves {
         g.leaf();
@@ -920,7 +933,7 @@ pub fn first_use_programs<S: Setup>() -> Vec<(String, Prog, Vec<S::E>, Vec<S::E>
                 for r in 0..reads {
                     stmts.push(if r == 0 { Stmt::Mul(2, 1) } else { Stmt::Add(2, 0) });
                 }
-                let prog = Prog { stmts, recompose_npo: false };
+                let prog = Prog { stmts, recompose_npo: false, recompose_variant: 0 };
                 'search: for &pv in &vals {
                     for &xv in &vals {
                         for &yv in &vals {
